@@ -13,8 +13,14 @@
      r_bad   Some g : the pointer OBJECT is unusable; g identifies that object state (its ETag, or "absent")
      r_tag a Some g : the ETag actor a holds for its conditional write is that of the unusable object g
      r_how a        : where the version a validated came from (the ETag read's bytes / a scan / the repaired pointer)
-   Premises written into the machine: identities are fresh (a pointer that is damaged again is a DIFFERENT object: ETags
-   are unique per object state -- for "absent" this excludes deleting the pointer twice within one committer's attempt);
+   `rstep` numbers the unusable object STATES (incarnations): g is fresh at every RDamage, and `rstep` lets the store compare
+   incarnations -- an IDEAL store.  A real store compares what it can see: "there is no object" (create-if-absent: every
+   absence looks like every other one) or the ETag, which on S3 is the MD5 of the content (the same garbage written twice has
+   the same ETag).  `rstep_s idn` (end of this file) is the machine of that store: idn g is what incarnation g looks like to
+   it, and the conditional write of a committer holding g is applied iff idn g = idn (current incarnation).  The two machines
+   coincide exactly when idn is injective (no two damage events leave the same store-visible object: at most one deletion,
+   garbage pairwise different); Proofs/PtrFallbackProofs.v proves the statements under that hypothesis and refutes them for
+   idn = (fun _ => IAbsent) -- the pointer deleted twice within one attempt -- and for identical garbage;
    the scan returns SOME existing metadata file (`RScan r`, r < number of files): which one is C10's subject, and with
    `exact = true` the machine only enables scans that return the version named by the last successful pointer write.
    Conditional-write storage only (cas c = true in every theorem).  The pointer read that numbers the next version
@@ -236,3 +242,51 @@ Definition pobj_code (p : pobj) : (Z * nat) := match p with PGood v => (0%Z, v) 
 Definition rsummary (X : rworld) (n : nat) :=
   (summary (rw X) n, pobj_code (phys X),
    map (fun e => (re_actor e, pobj_code (re_replaced e), re_validated e, how_code (re_how e))) (r_repl X), r_inexact X).
+
+(* ---- the store that compares only what it can see ------------------------------------------------------------------
+   what an unusable pointer object looks like to a conditional write: no object at all (the committer's write is
+   create-if-absent, If-None-Match: * ), or an object with garbled content b whose ETag is a function of b (S3: its MD5) *)
+Inductive ident := IAbsent | IGarbled (b : nat).
+Definition ident_eqb (i j : ident) : bool :=
+  match i, j with
+  | IAbsent, IAbsent => true
+  | IGarbled a, IGarbled b => Nat.eqb a b
+  | _, _ => false
+  end.
+
+(* `rstep` with the store's comparison in the one step where the store compares unusable objects: the conditional PUT
+   keyed to an unusable object's ETag.  The ghost entry records the incarnation actually replaced and the one read. *)
+Definition rstep_s (idn : nat -> ident) (c : cfg) (exact : bool) (X : rworld) (x : revent) : option rworld :=
+  match x with
+  | RFlip a ok =>
+    let w := rw X in
+    let s := w_actors w a in
+    match r_tag X a, a_pc s with
+    | Some g, PFenced =>
+      let can := match r_bad X with Some g' => ident_eqb (idn g) (idn g') | None => false end in
+      let cur := match r_bad X with Some g' => g' | None => g end in
+      if Bool.eqb ok can && cas c then
+        if ok then
+          Some {| rw := {| w_ptr := a_new s; w_files := w_files w; w_lock := w_lock w;
+                           w_hist := w_hist w ++ [(a_new s, a)]; w_repl := w_repl w ++ [(w_ptr w, a_cur s)];
+                           w_actors := upd a (set_pc s PFlipped) (w_actors w) |};
+                  r_bad := None; r_next := r_next X; r_tag := r_tag X; r_how := r_how X;
+                  r_repl := r_repl X ++ [{| re_replaced := PBad cur; re_held := PBad g; re_validated := a_cur s;
+                                            re_how := r_how X a; re_actor := a |}];
+                  r_inexact := r_inexact X |}
+        else Some (with_world X (with_actor w a (set_pc s PConflict)))
+      else None
+    | _, _ => None
+    end
+  | _ => rstep c exact X x
+  end.
+
+Definition rstep_s_skip (idn : nat -> ident) (c : cfg) (exact : bool) (X : rworld) (x : revent) : rworld :=
+  match rstep_s idn c exact X x with Some X' => X' | None => X end.
+Definition rrun_s (idn : nat -> ident) (c : cfg) (exact : bool) (X : rworld) (xs : list revent) : rworld :=
+  fold_left (rstep_s_skip idn c exact) xs X.
+Fixpoint rrun_s_strict (idn : nat -> ident) (c : cfg) (exact : bool) (X : rworld) (xs : list revent) (i : nat) : rworld + nat :=
+  match xs with
+  | [] => inl X
+  | x :: xs' => match rstep_s idn c exact X x with Some X' => rrun_s_strict idn c exact X' xs' (S i) | None => inr i end
+  end.
